@@ -165,14 +165,20 @@ def _mk(A, directed, W=None, w=None):
     return net
 
 
-def _weights_from_code(A, directed, code):
+#  a second alphabet with a link of length exactly 0 (legal: zero lags,
+#  coincident nodes); used by a part of the wund / wdir cases
+ATTR_VALUES_ZERO = (0.0, 1.0, 2.5)
+
+
+def _weights_from_code(A, directed, code, values=None):
     """Attribute matrix: the k-th link (in pair order) gets the k-th base-3
     digit of `code` as index into ATTR_VALUES."""
+    values = values or ATTR_VALUES
     n = len(A)
     W = [[0.0] * n for _ in range(n)]
     for (i, j) in pairs(n, directed):
         if A[i][j]:
-            W[i][j] = ATTR_VALUES[code % 3]
+            W[i][j] = values[code % 3]
             if not directed:
                 W[j][i] = W[i][j]
             code //= 3
@@ -329,8 +335,17 @@ def _check_path(acc, net, A, directed, W=None, lv=True, big=False):
     acc.check("average_path_length" + suffix,
               lambda: net.average_path_length(*arg),
               G.average_path_length(D))
-    acc.check("global_efficiency" + suffix,
-              lambda: net.global_efficiency(*arg), G.global_efficiency(D))
+    # a path of length 0 between two distinct nodes makes the efficiency
+    # (sum of 1/d) and everything built on it infinite: not defined
+    zero_path = W is not None and any(
+        D[i][j] == 0 for i in range(n) for j in range(n) if i != j)
+    if zero_path:
+        acc.ex("efficiency / vulnerability with a zero-length path (1/d "
+               "undefined)")
+        lv = False
+    else:
+        acc.check("global_efficiency" + suffix,
+                  lambda: net.global_efficiency(*arg), G.global_efficiency(D))
     if W is None:
         acc.check("diameter", net.diameter, G.diameter(D))
         if directed:
@@ -1022,21 +1037,27 @@ def fam_dir(case):
 
 
 def fam_wund(case):
-    n, mask, code = case
+    n, mask, code = case[:3]
+    zero = len(case) > 3 and case[3] == "zero"
     A = adj(n, False, mask).tolist()
-    W = _weights_from_code(A, False, code)
-    acc = Acc("undirected", "undirected n=%d mask=%d attr-code=%d" % (
-        n, mask, code))
+    W = _weights_from_code(A, False, code, ATTR_VALUES_ZERO if zero else None)
+    acc = Acc("undirected" + ("+zero-length" if zero else ""),
+              "undirected n=%d mask=%d attr-code=%d%s" % (
+                  n, mask, code, " values %s" % (ATTR_VALUES_ZERO,)
+                  if zero else ""))
     _check_weighted(acc, A, False, W)
     return acc.result(trivial=(mask == 0))
 
 
 def fam_wdir(case):
-    n, mask, code = case
+    n, mask, code = case[:3]
+    zero = len(case) > 3 and case[3] == "zero"
     A = adj(n, True, mask).tolist()
-    W = _weights_from_code(A, True, code)
-    acc = Acc("directed", "directed n=%d mask=%d attr-code=%d" % (
-        n, mask, code))
+    W = _weights_from_code(A, True, code, ATTR_VALUES_ZERO if zero else None)
+    acc = Acc("directed" + ("+zero-length" if zero else ""),
+              "directed n=%d mask=%d attr-code=%d%s" % (
+                  n, mask, code, " values %s" % (ATTR_VALUES_ZERO,)
+                  if zero else ""))
     _check_weighted(acc, A, True, W)
     return acc.result(trivial=(mask == 0))
 
@@ -1294,6 +1315,8 @@ def run(ctx):
                             [g for n in range(2, 5) for g in iso(n, False)])
     cases += _weighted_cases(iso(5, False), None if thorough else 7,
                              orbits=True)
+    cases += [c + ["zero"] for c in _weighted_cases(
+        [g for n in range(2, 5) for g in iso(n, False)])]
     ctx.explore("wund", cases, desc="every assignment of %s to the links of "
                 "%s graphs on 2..4 nodes; iso(5)%s: one assignment per "
                 "isomorphism class of attributed graphs" % (
@@ -1303,6 +1326,8 @@ def run(ctx):
     dg = [g for n in range(2, 4) for g in all_graphs(n, True)]
     cases = _weighted_cases(dg)
     cases += _weighted_cases(iso(4, True), 5 if thorough else 3, orbits=True)
+    cases += [c + ["zero"] for c in _weighted_cases(
+        [g for n in range(2, 4) for g in iso(n, True)])]
     ctx.explore("wdir", cases, desc="every assignment on all labelled "
                 "directed graphs on 2..3 nodes; iso(4) with <= %d links: one "
                 "assignment per isomorphism class of attributed graphs" % (
